@@ -5,6 +5,7 @@ import (
 	"go/types"
 	"math"
 	"net"
+	"regexp"
 	"strings"
 
 	"kv/term"
@@ -1408,6 +1409,9 @@ func (e *Exec) latin1Decode(cd *codec, in Slice) Value {
 	return Tuple{Slice{Arr: obj, Len: len(bs), Cap: len(bs)}, Iface{}}
 }
 
+// formats made of literal text and %d / %0Nd verbs
+var sprintfDecimalOnly = regexp.MustCompile(`^([^%]|%(0[0-9])?d)*$`)
+
 // sprintf formats with a concrete format string made of literals and %d verbs
 // over small unsigned integers; anything else is an opaque string.
 func (e *Exec) sprintf(format *Str, args Slice) Value {
@@ -1415,24 +1419,44 @@ func (e *Exec) sprintf(format *Str, args Slice) Value {
 	if !ok {
 		return e.opaqueStr("fmt.Sprintf")
 	}
-	if !strings.Contains(fs, "%d") || strings.Count(fs, "%") != strings.Count(fs, "%d") {
+	if !sprintfDecimalOnly.MatchString(fs) || !strings.Contains(fs, "%") {
 		return e.opaqueStr("fmt.Sprintf:" + fs)
 	}
 	var out []*term.T
 	ai := 0
 	for i := 0; i < len(fs); i++ {
-		if fs[i] == '%' && i+1 < len(fs) && fs[i+1] == 'd' {
+		if fs[i] == '%' {
+			// %d or %0Nd: zero padding to N digits
+			j, width := i+1, 0
+			for fs[j] >= '0' && fs[j] <= '9' {
+				width = width*10 + int(fs[j]-'0')
+				j++
+			}
 			if ai >= args.Len {
 				return e.opaqueStr("fmt.Sprintf:" + fs)
 			}
 			iv := e.sliceElem(args, ai).(Iface)
 			ai++
 			t, ok := iv.V.(*term.T)
-			if !ok || t.Sort.K != term.BV || isSigned(iv.T) || t.Sort.W > 16 {
+			if !ok || t.Sort.K != term.BV || isSigned(iv.T) {
 				return e.opaqueStr("fmt.Sprintf:" + fs)
 			}
-			out = append(out, e.decimal(e.C.ZExt(t, 32))...)
-			i++
+			var v *term.T
+			if t.Sort.W <= 16 {
+				v = e.C.ZExt(t, 32)
+			} else {
+				// a wider unsigned value is rendered when it is known to stay below 100000
+				if !e.Branch(e.C.Cmp(term.OpULt, t, e.C.BVConst(t.Sort.W, 100000)), "dec.range") {
+					return e.opaqueStr("fmt.Sprintf:" + fs)
+				}
+				v = e.C.Extract(t, 31, 0)
+			}
+			ds := e.decimal(v)
+			for k := len(ds); k < width; k++ {
+				out = append(out, e.C.BVConst(8, '0'))
+			}
+			out = append(out, ds...)
+			i = j
 			continue
 		}
 		out = append(out, e.C.BVConst(8, uint64(fs[i])))
